@@ -306,6 +306,10 @@ def contract_ob(oid, function, props, case_fn, clause, kind='post', deciding=Tru
                             wit = w2
                             rp = _replay(case, wit, expect='returns', spec_eval=spec_eval)
                             how = 'concrete search (mpmath) after ' + r.backend
+                            if w2.get('code_undefined') and not (rp and rp.get('confirmed')):
+                                return Verdict('unknown', r.backend, time.time() - t0,
+                                               'ensures `%s` not proved (%s); the code term is undefined at a concrete point but the real code does not confirm it' % (label, r.status),
+                                               sample=sample, replay=rp)
                         return Verdict('refuted', how, time.time() - t0,
                                        'ensures `%s` fails: code %s vs spec %s' % (label, tm.show(lhs)[:300], tm.show(rhs)[:300]),
                                        witness=wit, sample=sample, replay=rp)
@@ -376,10 +380,23 @@ def random_refute(case, facts, lhs, rhs, tries=300, seed=0, maxdim=3):
         try:
             if not all(evalc.evaluate(f_, env) for f_ in facts):
                 continue
-            a, b = evalc.evaluate(lhs, env), evalc.evaluate(rhs, env)
+            b = evalc.evaluate(rhs, env)
         except (evalc.Undefined, KeyError, ZeroDivisionError, IndexError, ValueError):
             continue
-        if isinstance(a, bool) or isinstance(b, bool):
+        code_undefined = False
+        try:
+            a = evalc.evaluate(lhs, env)
+        except evalc.Undefined:
+            # the spec value exists but the code term leaves the domain of a partial operation (nan in floats):
+            # a candidate only - the caller must confirm it by replay on the real code
+            if isinstance(b, bool):
+                continue
+            a, code_undefined = float('nan'), True
+        except (KeyError, ZeroDivisionError, IndexError, ValueError):
+            continue
+        if code_undefined:
+            differ = True
+        elif isinstance(a, bool) or isinstance(b, bool):
             differ = bool(a) != bool(b)
         else:
             differ = abs(a - b) > 1e-9 * max(1, abs(a), abs(b))
@@ -396,6 +413,8 @@ def random_refute(case, facts, lhs, rhs, tries=300, seed=0, maxdim=3):
                     return [build(prefix + [i], k + 1) for i in range(dims[k])]
                 w[name] = build([], 0)
                 w[name + '.shape'] = dims
+            if code_undefined:
+                w['code_undefined'] = True
             w['code_value'] = float(a) if not isinstance(a, bool) else a
             w['spec_value'] = float(b) if not isinstance(b, bool) else b
             w.update(getattr(case, 'witness_extra', {}) or {})
